@@ -391,6 +391,7 @@ impl<'a, 't, 'g> VGen<'a, 't, 'g> {
                     let mut values: Vec<String> = (0..k).map(|_| self.fresh()).collect();
                     let default = if self.t.flag() { Some(EnumeratedValue::new(&values[self.t.below(values.len())].clone())) } else { None };
                     let info_values = values.clone();
+                    let info_values_len = info_values.len();
                     if values.len() >= 2 && self.site(FaultKind::DupEnumValue) {
                         // (appended, not substituted: every declared value stays declared, so the unit
                         // has exactly this one fault)
@@ -400,12 +401,20 @@ impl<'a, 't, 'g> VGen<'a, 't, 'g> {
                         self.set_marker(&m);
                     }
                     self.enums.push(EnumInfo { name: name.clone(), values: info_values });
+                    let planted_dup = values.len() > info_values_len;
+                    let mut evs: Vec<EnumeratedValue> = values.iter().map(|v| EnumeratedValue::new(v)).collect();
+                    // (the duplicate may be written with the type's own name in front - `T#v` is the same
+                    // value as `v` inside the declaration of T - or the first occurrence may)
+                    if planted_dup && self.g.want("DUPLICATE_ENUM_VALUE_WITH_TYPE_PREFIX") {
+                        match self.t_free_pick(&[0usize, 1, 2, 3]) {
+                            1 => evs.last_mut().unwrap().type_name = Some(Type::from(&name)),
+                            2 => evs[0].type_name = Some(Type::from(&name)),
+                            _ => {}
+                        }
+                    }
                     DataTypeDeclarationKind::Enumeration(EnumerationDeclaration {
                         type_name: Type::from(&name),
-                        spec_init: EnumeratedSpecificationInit {
-                            spec: EnumeratedSpecificationKind::values(values.iter().map(|v| EnumeratedValue::new(v)).collect()),
-                            default,
-                        },
+                        spec_init: EnumeratedSpecificationInit { spec: EnumeratedSpecificationKind::values(evs), default },
                     })
                 }
                 2 if !self.enums.is_empty() => {
